@@ -20,6 +20,8 @@ pub enum Trig {
 pub struct Case {
   pub upstream: Vec<Op>,
   pub create_src: bool,
+  /// 0: hot/create source; 1: `never()`; 2: hot source merged with `empty()`
+  pub src_kind: u8,
   pub flavor: Flavor,
   pub history: Vec<Trig>,
   pub guard: bool,
@@ -37,7 +39,7 @@ pub fn random_case(r: &mut Rng, max_len: usize) -> Case {
       3 => Op::First,
       4 => Op::Skip(1),
       5 => Op::TakeWhile(Pred::Lt(2)),
-      6 => Op::Scan,
+      6 => [Op::Delay(1), Op::ObserveOn, Op::Debounce(1)][r.below(3)].clone(),
       _ => Op::BoxIt,
     });
   }
@@ -53,6 +55,7 @@ pub fn random_case(r: &mut Rng, max_len: usize) -> Case {
   Case {
     upstream,
     create_src: r.chance(1, 3),
+    src_kind: [0, 0, 0, 1, 2][r.below(5)],
     flavor: if r.chance(1, 2) { Flavor::Local } else { Flavor::Threads },
     history,
     guard: r.chance(1, 4),
@@ -70,7 +73,16 @@ pub fn observe(c: &Case) -> Result<Obs, String> {
     let mut w = World::new(c.flavor, 1);
     let mut ops = c.upstream.clone();
     ops.push(Op::Finalize(FIN));
-    let chain = Chain::new(if c.create_src { Src::Create(0) } else { Src::Hot(0) }, ops);
+    let mut ops = ops;
+    let src = match c.src_kind {
+      1 => Src::Never,
+      2 => {
+        ops.insert(0, Op::Merge(Box::new(Chain::new(Src::Empty, vec![]))));
+        if c.create_src { Src::Create(0) } else { Src::Hot(0) }
+      }
+      _ => if c.create_src { Src::Create(0) } else { Src::Hot(0) },
+    };
+    let chain = Chain::new(src, ops);
     w.subscribe(&chain, 1);
     if c.guard {
       w.guard(0);
@@ -104,6 +116,8 @@ pub fn observe(c: &Case) -> Result<Obs, String> {
       }
     }
     step_seq.push(w.log.mark(0, "step", 0));
+    let mut rng = Rng::new(3);
+    w.drain(Policy::Fifo, u64::MAX / 4, &mut rng);
     let evs = w.log.evs();
     w.teardown();
     Obs { evs, step_seq }
